@@ -11,11 +11,18 @@ type Result struct {
 	Truncated   bool
 	Ball        *rt.Term // uncaught ball (nil if none)
 	Budget      bool     // inference or work budget exceeded: the case is to be discarded
+	BudgetSteps bool     // ... it was the inference budget (the answers found until then are still the first answers)
 	STO         bool     // a unification subject to occurs check was performed: discard
 	VarOrder    bool     // a setof sort hinged on the order of two distinct variables: discard
 	Unsupported string   // the program used something the reference does not model: discard
 	Output      string
 	Stats       Stats
+}
+
+// PrefixComparable: the run ended on its inference budget after at least one answer and nothing else rules
+// the case out: for a program without side effects those answers are the first answers of any correct run.
+func (r *Result) PrefixComparable() bool {
+	return r.Budget && r.BudgetSteps && !r.STO && !r.VarOrder && r.Unsupported == "" && len(r.Answers) > 0
 }
 
 // Discard says why the case must not be compared ("" = comparable).
@@ -115,6 +122,7 @@ func (m *Machine) Solve(query *rt.Term, vars []int64, max int) (res Result) {
 				res.Budget = true
 				res.Stats = m.Stats
 				res.Output = m.out.String()
+				res.STO, res.VarOrder, res.Unsupported = m.sto, m.VarOrder, m.Unsupported
 				return
 			}
 			panic(r)
@@ -144,6 +152,7 @@ func (m *Machine) Solve(query *rt.Term, vars []int64, max int) (res Result) {
 				res.Ball = m.toRT(b.t)
 			} else {
 				res.Budget = true
+				res.BudgetSteps = true
 			}
 			break
 		}
